@@ -476,6 +476,14 @@ class Emitter:
     def pname(p, i):
         return p.get('name') or ('__p%d' % i)
 
+    def unnamed_param(self, decl):
+        fn = self.tu.parent.get(decl.get('id'))
+        if fn is not None:
+            for i, p in enumerate(self.tu.params(fn)):
+                if p.get('id') == decl.get('id'):
+                    return '__p%d' % i
+        raise Abort('reference to an unnamed declaration')
+
     # ================================================================== function bodies
     def tmp(self, base='t'):
         self.tmp_n += 1
@@ -655,6 +663,18 @@ class Emitter:
             return out
         se = self.strip(e)
         rec = self.rec_of_type_safe(t)
+        tq = (t.get('desugaredQualType') or t.get('qualType', '')).strip()
+        am = re.match(r'^(.*?)\s*\[(\d+)\]$', tq)
+        if am and se['kind'] == 'CXXConstructExpr':
+            # array of class objects, each element constructed with the same constructor call
+            erec = self.rec_by_name(am.group(1))
+            if self.is_trivial_construct(se, erec) and not se.get('inner'):
+                return out
+            for k in range(int(am.group(2))):
+                out.append(self.construct_into('&%s[%d]' % (target, k), se, erec) + ';')
+                if self.stmt_calls_may_throw:
+                    out.append(self.exc_check())
+            return out
         if se['kind'] in ('CXXConstructExpr', 'CXXTemporaryObjectExpr') and rec is not None:
             if not self.is_trivial_construct(se, rec):
                 out.append(self.construct_into('&' + target, se, rec) + ';')
@@ -1341,7 +1361,7 @@ class Emitter:
             return self.fn_cname(d)
         if rk in ('ParmVarDecl', 'VarDecl'):
             decl = self.tu.byid.get(r['id'], r)
-            name = r['name']
+            name = r.get('name') or self.unnamed_param(decl)
             t = decl.get('type', r.get('type', {}))
             if rk == 'VarDecl' and self.is_global(decl):
                 name = self.global_var(decl)
@@ -1727,12 +1747,11 @@ class Emitter:
             st = self.atomic_member(md, fake_me, args[0], {'inner': [None] + args[1:], 'type': e['type']})
             if st is not None:
                 return st
-            d, has = self.request(fid)
-            if not has and (d.get('isImplicit') or d.get('explicitlyDefaulted')) and d.get('name') == 'operator=':
-                rec = self.tu.class_of(d)
+            if (md.get('isImplicit') or md.get('explicitlyDefaulted')) and md.get('name') == 'operator=':
+                rec = self.tu.class_of(md)
                 if rec is not None and self.trivially_copyable(rec):
-                    self.protos.pop(self.fn_cname(d), None)
                     return '(%s = %s)' % (self.sub(args[0]), self.sub(args[1]))
+            d, has = self.request(fid)
             this = self.addr_of(args[0])
             text = '%s(%s)' % (self.fn_cname(d), ', '.join([this] + self.args(d, args[1:])))
             return self.finish_call(e, d, text, discard)
